@@ -29,7 +29,14 @@ def _frame(*a, **k):
     return Frame.build(*a, **k)
 
 
+class PartialRef:
+    def __init__(self, target, *args, **kwargs):
+        self.target, self.args, self.kwargs = target, args, kwargs
+
+
 EXTERNAL = {
+    "functools.partial": PartialRef,
+    "itertools.product": lambda *a, **k: list(itertools.product(*a, **k)),
     "itertools.chain": lambda *a: list(itertools.chain(*a)),
     "warnings.warn": lambda *a, **k: None,
     "numpy.zeros": lambda n, dtype=float: [0.0] * n,
@@ -42,6 +49,13 @@ class FuncRef:
 
     def __init__(self, fn: FuncInfo):
         self.fn = fn
+
+
+class Closure:
+    """A nested function together with the environment it was defined in."""
+
+    def __init__(self, fn: FuncInfo, env: Dict[str, Any]):
+        self.fn, self.env = fn, env
 
 
 class Interp:
@@ -102,7 +116,14 @@ class Interp:
         ev.fn = fn  # type: ignore[attr-defined]
         ev.globals_env = self.module_globals.setdefault(fn.unit.modname, {})
         ev.on_name = self.on_name
+        ev.on_def = self.on_def
         return ev
+
+    def on_def(self, ev, node: ast.FunctionDef):
+        nested = ev.fn.nested.get(node.name)
+        if nested is None:
+            raise Unknown(f"nested function {node.name} is not in the program model")
+        return Closure(nested, ev.env)
 
     def on_name(self, ev, e: ast.Name):
         sym = self.prog.resolve(ev.fn.unit, e.id)
@@ -110,12 +131,25 @@ class Interp:
             return FuncRef(sym)
         return NotImplemented
 
-    def call(self, fn: FuncInfo, args: Sequence[Any] = (), kwargs: Optional[Dict[str, Any]] = None, selfobj=None):
+    def call_value(self, target, args, kwargs, ev, node):
+        """Call a FuncRef / PartialRef / Closure value."""
+        if isinstance(target, PartialRef):
+            return self.call_value(target.target, list(target.args) + list(args), {**target.kwargs, **kwargs}, ev, node)
+        if isinstance(target, Closure):
+            return self.call(target.fn, args, kwargs, outer_env=target.env)
+        if isinstance(target, FuncRef):
+            if target.fn.qualname in self.stubs:
+                return self.stubs[target.fn.qualname](self, ev, node, list(args), dict(kwargs))
+            return self.call(target.fn, args, kwargs)
+        raise Unknown("call of a value that is not a function of the package")
+
+    def call(self, fn: FuncInfo, args: Sequence[Any] = (), kwargs: Optional[Dict[str, Any]] = None, selfobj=None, outer_env: Optional[Dict[str, Any]] = None):
         self.depth += 1
         try:
             if self.depth > self.max_depth:
                 raise Unknown("call depth exceeded")
-            env = self.bind(fn, list(args), dict(kwargs or {}), selfobj)
+            env = dict(outer_env or {})
+            env.update(self.bind(fn, list(args), dict(kwargs or {}), selfobj))
             self.calls.append((fn.qualname, dict(env)))
             ev = self.evaluator(env, fn)
             body = [s for s in fn.node.body if not (isinstance(s, ast.Expr) and isinstance(s.value, ast.Constant))]
@@ -139,6 +173,8 @@ class Interp:
                 raise EvalRaise("KeyError", e)
         if isinstance(base, tuple) and hasattr(base, "_fields") and e.attr in base._fields:
             return getattr(base, e.attr)
+        if isinstance(base, (str, int, float, bool, tuple, list, dict, set, frozenset, type(None))) and not hasattr(base, e.attr):
+            raise EvalRaise("AttributeError", e)
         return NotImplemented
 
     def on_store(self, ev, target, value) -> bool:
@@ -236,19 +272,25 @@ class Interp:
                         nt = namedtuple(g[-1].args[0].value, [e.value for e in g[-1].args[1].elts])  # type: ignore[attr-defined]
                         args, kwargs = self.args_of(ev, c)
                         return nt(*args, **kwargs)
+        if isinstance(f, ast.Name) and f.id in ("getattr", "hasattr") and f.id not in ev.env and len(c.args) >= 2:
+            obj = ev.eval(c.args[0])
+            name = ev.eval(c.args[1])
+            concrete = isinstance(obj, self.native) or isinstance(obj, (str, int, float, bool, tuple, list, dict, set, frozenset, type(None)))
+            if concrete and isinstance(name, str):
+                if f.id == "hasattr":
+                    return hasattr(obj, name)
+                if hasattr(obj, name):
+                    return getattr(obj, name)
+                if len(c.args) == 3:
+                    return ev.eval(c.args[2])
+                raise EvalRaise("AttributeError", c)
         if isinstance(f, ast.Name) and f.id == "map" and len(c.args) == 2:
             target = ev.eval(c.args[0])
-            if isinstance(target, FuncRef):
+            if isinstance(target, (FuncRef, PartialRef, Closure)):
                 items = ev.eval(c.args[1])
                 if isinstance(items, Opaque):
                     raise Unknown("map over an opaque iterable")
-                out = []
-                for x in list(items):
-                    if target.fn.qualname in self.stubs:
-                        out.append(self.stubs[target.fn.qualname](self, ev, c, [x], {}))
-                    else:
-                        out.append(self.call(target.fn, [x], {}))
-                return out
+                return [self.call_value(target, [x], {}, ev, c) for x in list(items)]
         # 2. callables of the stand-in world
         if isinstance(f, ast.Attribute):
             recv = ev.eval(f.value)
@@ -265,6 +307,9 @@ class Interp:
                     return self._native_call(getattr(recv, f.attr), args, kwargs, c)
         elif isinstance(f, ast.Name) and f.id in ev.env:
             target = ev.env[f.id]
+            if isinstance(target, (FuncRef, PartialRef, Closure)):
+                args, kwargs = self.args_of(ev, c)
+                return self.call_value(target, args, kwargs, ev, c)
             if isinstance(target, type) and issubclass(target, self.native):
                 args, kwargs = self.args_of(ev, c)
                 return self._native_call(target, args, kwargs, c)
